@@ -64,6 +64,12 @@ static void history(const std::string& s1, const std::string& s2, const std::str
     }
     if (vns.empty()) break;
   }
+  // two consecutive replacements without an evaluation in between -- the storage moves, the length ends where it started -- then a sweep:
+  // a view or cache keyed on the length alone would now read freed memory
+  for (auto& vn : vns) { std::vector<double> cur; masa_get_vec<double>(vn, cur); size_t L0 = cur.size();
+    for (size_t mid : {2 * L0 + 40, (size_t)0, (size_t)1}) { std::vector<double> big(mid, 1.25), back(L0); for (size_t i = 0; i < L0; i++) back[i] = 0.75 + 0.125 * (i % 5);
+      masa_set_vec<double>(vn, big); masa_set_vec<double>(vn, back); g_calls += 2;
+      for (int k = 0; k < API_N; k++) { API_TABLE[k].cd(A); g_calls++; } } }
   for (auto& vn : vns) for (int n : {0, 1, 3}) { double arr[8] = {1, 2, 3, 4, 5, 6, 7, 8}; int nn = n; masa_set_array(vn.c_str(), &nn, arr); double out[64]; int m = 0; masa_get_array(vn.c_str(), &m, out); g_calls += 2; }
   { std::vector<double> v; masa_get_vec<double>("no_such_vector", v); double out[4]; int m = 0; masa_get_array("no_such_vector", &m, out); g_calls += 2; }
   masa_select_mms<double>(h1); for (auto& p : par_names_d()) { masa_get_param<double>(p); g_calls++; } masa_get_param<double>("no_such_parameter"); masa_set_param<double>("no_such_parameter", 1.0);
